@@ -548,6 +548,31 @@ func main() {
 		fmt.Fprintf(&b, "/-- workingOn / timeout return expressions -/\ndef workingOnExpr : String := %s\ndef timeoutExpr : String := %s\n", leanStr(ret("workingOn")), leanStr(ret("timeout")))
 	}
 
+	// configuration / fork-flag reads on the path: every selector rooted at package `common` in the rule's files
+	{
+		var reads []string
+		for _, rel := range []string{"src/consensus/logical/vrf_with_stake.go", "src/consensus/logical/vrf_worker.go", "src/consensus/vrf/vrf.go", "src/common/ed25519/vrf.go"} {
+			f := parse(fset, filepath.Join(repo, rel))
+			for _, d := range f.Decls {
+				fn, ok := d.(*ast.FuncDecl)
+				if !ok || fn.Body == nil {
+					continue
+				}
+				ast.Inspect(fn.Body, func(n ast.Node) bool {
+					if se, ok := n.(*ast.SelectorExpr); ok {
+						name := selName(se)
+						if strings.HasPrefix(name, "common.") && (strings.Contains(name, "Config") || strings.Contains(name, "Proposal") || strings.Contains(name, "Height") || strings.Contains(name, "Reward") || strings.HasPrefix(name, "common.Is") || strings.HasPrefix(name, "common.Get")) {
+							reads = append(reads, filepath.Base(rel)+":"+fn.Name.Name+":"+name)
+							return false
+						}
+					}
+					return true
+				})
+			}
+		}
+		fmt.Fprintf(&b, "\n/-- configuration / fork-schedule reads of the VRF code (file:function:selector) -/\ndef configReads : List String :=\n  %s\n", leanList(reads))
+	}
+
 	// package-level state writes in the VRF code
 	{
 		var ws [][3]string
